@@ -5,6 +5,8 @@
 -/
 import Stgutg.Model.Emulator
 import Stgutg.Spec.Amf
+import Stgutg.Props.C03
+import Stgutg.Props.C04
 import Stgutg.Props.C05
 import Stgutg.Props.C06
 import Stgutg.Props.C12
@@ -176,6 +178,31 @@ theorem protected_step (P : Prims) (hP : PrimsOk P) (sec : UeSec) (u : Spec.Amf.
     simp only [Spec.Amf.byteAt, op, List.cons_append, List.nil_append, List.getElem?_cons_succ, List.getElem?_cons_zero,
       UInt8.toNat_ofNat']
     omega
+
+/-! ### what the reference AMF decodes is the PDU the builder made (C04 + C03) -/
+
+set_option maxRecDepth 1000000 in
+/-- table fact: the regenerated schema already carries the TS 38.413 constraints the reference AMF's encoder is run under
+    (`Spec.Ts38413.patchSchema` changes nothing; cf. `Props.C03.tags_are_ts38413`) -/
+theorem patchSchema_eq : Spec.Ts38413.patchSchema Gen.Ngap.schema = Gen.Ngap.schema := by decide +kernel
+
+theorem fuel_eq : Builders.fuel = Spec.Amf.ngapFuel := by unfold Builders.fuel; rfl
+
+/-- **the C04 / C03 obligations discharged**: for a PDU value that is within its constraints (`conf`, C04's decidable
+    predicate: integers in range, strings and open-type contents below 16384, CHOICEs well-formed) and regular (C03's:
+    BIT STRING octet counts, int64 integers), the octets `ngap.Encoder` returns are decoded by the reference AMF — library
+    decoder inverts the encoder (`C04_roundtrip_pdu`) and the X.691 specification encoder reproduces the octets
+    (`C03_encode_canonical`) — to exactly that value. -/
+theorem amf_sees_built_pdu (v : Aper.Val) (b : Bytes)
+    (hc : Props.C04.ConfPdu Spec.Amf.ngapFuel v)
+    (hr : Proofs.AperSpec.regular Gen.Ngap.schema Spec.Amf.ngapFuel (.struct Gen.Ngap.pduId) false v = true)
+    (h : Builders.encodePdu v = .ok b) : Spec.Amf.decodeNgap b = some v := by
+  unfold Builders.encodePdu at h
+  rw [fuel_eq] at h
+  unfold Spec.Amf.decodeNgap Spec.Amf.specSchema
+  rw [Props.C04.C04_roundtrip_pdu _ v b hc h, patchSchema_eq]
+  have e := Props.C03.C03_encode_canonical _ v b hr h
+  simp [e]
 
 /-! ### the wrappers of packet.go that only build and encode -/
 
